@@ -130,3 +130,54 @@ def _style(m, meta):
                 if seen != want:
                     return {"reproduced": True, "input": f"{cls.__name__} style part {spec!r}", "observed": repr(seen), "expected": repr(want)}
     return {"reproduced": False, "input": f"{len(cands)} strings per class", "observed": []}
+
+
+def format_vs_draw(m, meta):
+    """format(image, spec) against draw() with the equivalent explicit parameters (output captured from a fake tty), and the padded box
+    it must occupy, for padding widths / heights below, at and above the rendered size on each axis independently"""
+    import io, sys
+    import tests  # noqa: F401
+    from PIL import Image
+    from replay.vt import VT
+    from term_image.image import BlockImage
+    problems = []
+
+    class Tty(io.StringIO):
+        def isatty(self):
+            return False
+    for src, size in (((8, 8), dict(width=4)), ((30, 10), dict(width=10)), ((6, 20), dict(height=5))):
+        image = BlockImage(Image.new("RGB", src, (200, 100, 50)))
+        image.set_size(**size)
+        rw, rh = image.rendered_size
+        for w in sorted({1, rw - 1, rw, rw + 1, rw + 7} - {0}):
+            for h in sorted({1, rh - 1, rh, rh + 1, rh + 4} - {0}):
+                for ha, va in (("<", "^"), (">", "_"), ("|", "-")):
+                    spec = f"{ha}{w}.{va}{h}"
+                    out = format(image, spec)
+                    PW, PH = max(w, rw), max(h, rh)
+                    vt = VT(width=PW + 3, height=PH + 3, row=0, col=0).feed(out)
+                    t = vt.touched()
+                    box = {(r, c) for r in range(PH) for c in range(PW)}
+                    errs = []
+                    if out.count("\n") != PH - 1:
+                        errs.append(f"{out.count(chr(10)) + 1} lines, expected {PH}")
+                    if t != box:
+                        errs.append(f"cells outside the {PW}x{PH} box: {sorted(t - box)[:2]}; cells of it not written: {sorted(box - t)[:2]}")
+                    buf = Tty()
+                    old = sys.stdout
+                    sys.stdout = buf
+                    try:
+                        image.draw(ha, w, va, h, check_size=False, scroll=True)
+                    finally:
+                        sys.stdout = old
+                    drawn = buf.getvalue()
+                    if out not in drawn:
+                        errs.append("draw() with the equivalent parameters writes a different picture")
+                    if errs:
+                        problems.append({"rendered size": (rw, rh), "spec": spec, "failed": errs[:2]})
+                        break
+                if problems:
+                    break
+            if problems:
+                break
+    return {"reproduced": bool(problems), "input": "padding sizes around the rendered size on each axis x alignments, format() vs draw()", "observed": problems[:3]}
